@@ -126,6 +126,34 @@ pub fn run(e: &'static Engine) {
     // generated: random cells, and steered matrices (whole rows/columns of one value with isolated exceptions at
     // word-size boundaries, run-length patterns, uniform rectangles), so that a renderer that packs, chunks or
     // run-length-encodes rows is driven through its uniform-chunk paths
+    // ambient environment: the rendering is a function of the matrix only. The generated part below runs in three
+    // phases under different terminal-related environment variables (set between phases, while no worker thread runs)
+    for (phase, envs) in [
+        (0u64, vec![("COLUMNS", None), ("LINES", None)]),
+        (1, vec![("COLUMNS", Some("200")), ("LINES", Some("60")), ("TERM", Some("xterm-256color"))]),
+        (2, vec![("COLUMNS", Some("27")), ("LINES", Some("5")), ("TERM", Some("dumb")), ("NO_COLOR", Some("1"))]),
+    ] {
+        for (k, v) in &envs {
+            match v {
+                Some(v) => std::env::set_var(k, v),
+                None => std::env::remove_var(k),
+            }
+        }
+        let per: u32 = e.tier.pick(1600, 16000);
+        let mut jobs: Vec<Job> = Vec::new();
+        for _ in 0..16 {
+            jobs.push(Box::new(move |jc: &mut JobCtx| {
+                let strat = crate::gens::any_case();
+                jc.run_prop((8 + phase) << 20, &strat, per / 16, |(c, _, _)| c.to_json(), |(c, _, _), o| {
+                    o.label(&format!("part:environment_phase_{}", phase));
+                    check(c, o)
+                });
+            }));
+        }
+        e.par(jobs);
+    }
+    std::env::remove_var("COLUMNS");
+    std::env::remove_var("LINES");
     let total: u32 = e.tier.pick(32000, 320000);
     let shards = e.tier.pick(32u32, 96);
     let mut jobs: Vec<Job> = Vec::new();
